@@ -13,8 +13,8 @@
      is_anchor .. date a    a is the point of the grid starting at stabilize's initial start
                             whose period contains the date (from, or the earliest posting)
      dur_ok dur             the duration is at least one unit long (the parser rejects 0) *)
-From LedgerV Require Import Base.Prelude Model.PeriodCalendar Gen.PeriodSources Model.Period
-  Proofs.PeriodCalendarProofs Proofs.PeriodProofs.
+From LedgerV Require Import Base.Prelude Model.PeriodCalendar Gen.PeriodSources Gen.PeriodWords Model.Period
+  Model.PeriodExpr Proofs.PeriodCalendarProofs Proofs.PeriodProofs Proofs.PeriodExprProofs.
 From Coq Require Import Sorting.Sorted Sorting.Permutation.
 Local Open Scope Z_scope.
 
@@ -227,6 +227,108 @@ Theorem group_by_partition_refuted :
     groups = [[mkPost 18632 1]; [mkPost 18647 2]].
 Proof. exact group_by_leak_lemma. Qed.
 Print Assumptions group_by_partition_refuted.
+
+(* ---- the period EXPRESSION: what the written forms mean (Model/PeriodExpr.v) ------------------------ *)
+(* The keyword table of date_parser_t::lexer_t::next_token and the token -> duration switches of
+   date_parser_t::parse are re-read from src/times.cc on every run (Gen/PeriodWords.v); the theorems
+   below hold only while that table says what the property text says.
+     parse_words fmt cy ws     lexer + parser on the blank-separated words of the expression
+     text_named_forms ...      the vocabulary of the property text (Model/PeriodExpr.v, written by hand)
+     dur_toks ts = Some d      ts is one duration clause (named form, every N units, every unit)
+     init d from to            the interval object all theorems above are about *)
+
+(* daily, weekly, biweekly, monthly, bimonthly, quarterly, yearly - in any letter case - are 1 day,
+   1 week, 2 weeks, 1 month, 2 months, 1 quarter, 1 year *)
+Theorem named_forms_denote : forall w q n fmt cy,
+  In (map lower_byte w, (q, n)) text_named_forms ->
+  parse_words fmt cy [WWord w] = Ok (init (mkDur q n) None None).
+Proof. exact named_forms_lemma. Qed.
+Print Assumptions named_forms_denote.
+
+(* `every N days/weeks/months/quarters/years` is N units of that quantum, for every N the lexer's
+   unsigned short holds *)
+Theorem every_n_units_denote : forall e w n q fmt cy,
+  map lower_byte e = w_every -> 1 <= n <= 65535 -> In (map lower_byte w, q) text_unit_plurals ->
+  parse_words fmt cy [WWord e; WInt n; WWord w] = Ok (init (mkDur q n) None None).
+Proof. exact every_n_lemma. Qed.
+Print Assumptions every_n_units_denote.
+
+Theorem every_unit_denotes : forall e w q fmt cy,
+  map lower_byte e = w_every -> In (map lower_byte w, q) text_unit_singulars ->
+  parse_words fmt cy [WWord e; WWord w] = Ok (init (mkDur q 1) None None).
+Proof. exact every_unit_lemma. Qed.
+Print Assumptions every_unit_denotes.
+
+(* dur_ok is never violated by an accepted expression: `every 0 <anything>` is an error *)
+Theorem every_zero_rejected : forall e w fmt cy,
+  map lower_byte e = w_every -> exists err, parse_words fmt cy [WWord e; WInt 0; w] = Err err.
+Proof. exact every_zero_lemma. Qed.
+Print Assumptions every_zero_rejected.
+
+(* from/since, to/until, in, every: recognised in any letter case *)
+Theorem keywords_any_case : forall w,
+  (map lower_byte w = w_from \/ map lower_byte w = w_since -> lex_word w = KTok T_SINCE) /\
+  (map lower_byte w = w_to \/ map lower_byte w = w_until -> lex_word w = KTok T_UNTIL) /\
+  (map lower_byte w = w_in -> lex_word w = KTok T_IN) /\
+  (map lower_byte w = w_every -> lex_word w = KTok T_EVERY).
+Proof. exact keywords_lemma. Qed.
+Print Assumptions keywords_any_case.
+
+(* an expression made of duration clauses, `from D` and `to D` clauses - any number, any order - is
+   read clause by clause (a later duration replaces an earlier one, a second from or to is an error) *)
+Theorem expression_read_clause_by_clause : forall fmt cy cs st,
+  (forall ts, In (CDur ts) cs -> dur_toks ts <> None) ->
+  parse_toks fmt cy (concat (map clause_toks cs)) st = apply_clauses fmt cy cs st.
+Proof. exact parse_clauses_ok. Qed.
+Print Assumptions expression_read_clause_by_clause.
+
+(* ... so a duration, a from and a to mean the same in all six orders: the interval object is
+   init d from to, with the bounds the date words name (named_bound_is_the_bound_used) *)
+Theorem bounded_expression_any_order : forall fmt cy dts d f t cs,
+  dur_toks dts = Some d -> In cs (perms3 (CDur dts) (CFrom f) (CTo t)) ->
+  (do st <- parse_toks fmt cy (concat (map clause_toks cs)) ps_empty; period_of st)
+  = Ok (init d (Some (bound_of_text fmt cy f)) (Some (bound_of_text fmt cy t))).
+Proof. exact any_order_3. Qed.
+Print Assumptions bounded_expression_any_order.
+
+Theorem from_expression_any_order : forall fmt cy dts d f cs,
+  dur_toks dts = Some d -> In cs [[CDur dts; CFrom f]; [CFrom f; CDur dts]] ->
+  (do st <- parse_toks fmt cy (concat (map clause_toks cs)) ps_empty; period_of st)
+  = Ok (init d (Some (bound_of_text fmt cy f)) None).
+Proof. exact any_order_from. Qed.
+Print Assumptions from_expression_any_order.
+
+(* only a to/until: since_specified stays false (init d None ..), so --align-intervals does not anchor *)
+Theorem to_expression_any_order : forall fmt cy dts d t cs,
+  dur_toks dts = Some d -> In cs [[CDur dts; CTo t]; [CTo t; CDur dts]] ->
+  (do st <- parse_toks fmt cy (concat (map clause_toks cs)) ps_empty; period_of st)
+  = Ok (init d None (Some (bound_of_text fmt cy t))).
+Proof. exact any_order_to. Qed.
+Print Assumptions to_expression_any_order.
+
+(* `in D` or a bare D, before or after the duration: the range is [begin, end) of what the date word
+   names (a day; a month or a year when the format carries no day / no month) and no since is recorded *)
+Theorem in_date_is_the_named_range : forall fmt cy dts d z b e,
+  dur_toks dts = Some d -> incl_of fmt cy z = Ok (b, e) ->
+  forall ts, In ts [dts ++ [KTok T_IN; KDate z]; dts ++ [KDate z]; [KTok T_IN; KDate z] ++ dts; [KDate z] ++ dts] ->
+  (do st <- parse_toks fmt cy ts ps_empty; period_of st)
+  = Ok (mkIval (Some b) (Some e) None None false None d None false).
+Proof. exact in_date_lemma. Qed.
+Print Assumptions in_date_is_the_named_range.
+
+(* the hypotheses are satisfiable, from the text: `to 2020/03/03 Every 2 Weeks from 2020/01/08`
+   (bytes of the text; the two date words name days 18324 and 18269) *)
+Example expression_example :
+  let d := days_from_civil in
+  parse_text [37; 89; 47; 37; 109; 47; 37; 100] 2021
+    [116; 111; 32; 50; 48; 50; 48; 47; 48; 51; 47; 48; 51; 32; 69; 118; 101; 114; 121; 32; 50; 32; 87; 101; 101;
+     107; 115; 32; 102; 114; 111; 109; 32; 50; 48; 50; 48; 47; 48; 49; 47; 48; 56] [d 2020 3 3; d 2020 1 8]
+  = Ok (init (mkDur QWeeks 2) (Some (d 2020 1 8)) (Some (d 2020 3 3))) /\
+  dur_toks [KTok T_EVERY; KInt 2; KTok T_WEEKS] = Some (mkDur QWeeks 2) /\
+  dur_toks [KTok T_BIMONTHLY] = Some (mkDur QMonths 2) /\
+  incl_of [37; 89; 47; 37; 109; 47; 37; 100] 2021 (d 2020 3 5) = Ok (d 2020 3 5, d 2020 3 6) /\
+  incl_of [37; 89; 47; 37; 109] 2021 (d 2020 3 5) = Ok (d 2020 3 1, d 2020 4 1).
+Proof. vm_compute. repeat split; reflexivity. Qed.
 
 (* the hypotheses are satisfiable and the functions compute what ledger prints:
    `every 2 weeks from 2020/01/08 to 2020/03/03` (Sunday weeks): 01/08-01/11 (clipped), then
